@@ -380,6 +380,7 @@ def main(check, argv=None):
     ap.add_argument("--jobs", type=int, default=int(os.environ.get("VERIF_JOBS", "0")) or min(16, os.cpu_count() or 4))
     ap.add_argument("--only", default=None, help="substring filter on config json (debug)")
     ap.add_argument("--replay", default=None)
+    ap.add_argument("--index", type=int, default=None, help="run only the configuration with this index (debug)")
     a = ap.parse_args(argv)
     tier = a.tier if a.tier in ("quick", "thorough") else "quick"
     seed = int(os.environ.get("VERIF_SEED", "0") or 0)
@@ -390,6 +391,8 @@ def main(check, argv=None):
     cfgs = check.configs(tier)
     if a.only:
         cfgs = [c for c in cfgs if a.only in json.dumps(c, sort_keys=True)]
+    if a.index is not None:
+        cfgs = [cfgs[a.index]]
     results = []
     tv_errors = []
     try:
